@@ -116,3 +116,43 @@ fn fee_sums_do_not_wrap() {
         }
     }
 }
+
+use crate::core::util::test::test_manager::test::TestManager;
+use crate::core::util::crypto::generate_keys;
+
+fn validate_guarded(tx: Transaction, bc: &Blockchain) -> Result<bool, String> {
+    let prev = std::panic::take_hook();
+    std::panic::set_hook(Box::new(|_| {}));
+    let r = std::panic::catch_unwind(std::panic::AssertUnwindSafe(|| tx.validate(&bc.utxoset, bc, false)));
+    std::panic::set_hook(prev);
+    r.map_err(|e| e.downcast_ref::<String>().cloned().or_else(|| e.downcast_ref::<&str>().map(|s| s.to_string())).unwrap_or_default())
+}
+
+/// C01/C10: Transaction::validate returns a verdict (never panics) for hostile but well-formed transactions
+#[tokio::test]
+#[serial_test::serial]
+async fn validate_is_total_on_hostile_fields() {
+    let t = TestManager::default();
+    let bc = t.blockchain_lock.read().await;
+    let (pk, sk) = generate_keys();
+    let mut rng = Rng::from_env();
+    for round in 0..400 {
+        let mut tx = Transaction::default();
+        let bound = round % 2 == 0;
+        tx.transaction_type = if bound { TransactionType::Bound } else { TransactionType::BlockStake };
+        let base = match rng.below(3) { 0 => 255u8, 1 => 254u8, _ => rng.next() as u8 };
+        for i in 0..3u8 {
+            let mut s = Slip::default(); s.public_key = pk; s.block_id = 7; s.tx_ordinal = 1;
+            s.slip_index = if i == 0 { base } else if i == 1 { base.wrapping_add(1) } else { base.wrapping_add(2) };
+            s.slip_type = if bound { if i == 1 { SlipType::Normal } else { SlipType::Bound } } else { SlipType::BlockStake };
+            s.amount = if bound { if i == 2 { 0 } else { 10 } } else { rng.edge_u64() };
+            let mut o = s.clone();
+            if !bound { o.amount = rng.edge_u64(); }
+            tx.from.push(s); tx.to.push(o);
+        }
+        tx.sign(&sk);
+        tx.generate(&pk, 0, 0);
+        let desc = format!("type {:?}, input slip_index {:?}, output amounts {:?}", tx.transaction_type, tx.from.iter().map(|s| s.slip_index).collect::<Vec<_>>(), tx.to.iter().map(|s| s.amount).collect::<Vec<_>>());
+        if let Err(p) = validate_guarded(tx, &bc) { witness(format!("Transaction::validate panicked ({}) on {}", p, desc)); }
+    }
+}
